@@ -1426,7 +1426,7 @@ func (e *compiledFunctionLiteral) compile() (prg *Program, name unistring.String
 	s.numArgs = paramsCount
 	body := e.body
 	funcs := e.c.extractFunctions(body)
-	var calleeBinding *binding
+	var calleeBinding, argsBinding *binding
 
 	emitArgsRestMark := -1
 	firstForwardRef := -1
@@ -1510,7 +1510,14 @@ func (e *compiledFunctionLiteral) compile() (prg *Program, name unistring.String
 		e.c.compileLexicalDeclarationsFuncBody(body, calleeBinding)
 		for _, b := range varScope.bindings {
 			if b.isVar {
-				if parentBinding := s.boundNames[b.name]; parentBinding != nil && parentBinding != calleeBinding {
+				parentBinding := s.boundNames[b.name]
+				if parentBinding == nil && b.name == "arguments" && e.typ != funcArrow && e.typ != funcClsInit {
+					// var arguments: starts with the arguments object of the parameter scope
+					s.argsNeeded = true
+					parentBinding, _ = s.bindNameLexical("arguments", false, 0)
+					argsBinding = parentBinding
+				}
+				if parentBinding != nil && parentBinding != calleeBinding {
 					parentBinding.emitGet()
 					b.emitSetP()
 				}
@@ -1569,7 +1576,7 @@ func (e *compiledFunctionLiteral) compile() (prg *Program, name unistring.String
 			e.c.throwSyntaxError(e.offset, "'arguments' is not allowed in class field initializer or static initialization block")
 		}
 		b, created := s.bindNameLexical("arguments", false, 0)
-		if created || b.isVar {
+		if created || b.isVar || b == argsBinding {
 			if !s.argsInStash {
 				s.moveArgsToStash()
 			}
